@@ -43,8 +43,12 @@ def main():
         if budget and time.time() - t0 > budget:
             ctx.count('cases_skipped_budget', 1)
             continue
-        rng = random.Random('%s/%s/%s/%s/%s/%s' % (
-            job['prop'], job['seed'], job['mode'], job.get('cfgname', ''), job['shard'], idx))
+        if job.get('mode_independent_rng'):
+            # the same world in every implementation / configuration (differential engines)
+            rng = random.Random('%s/%s/%s/%s' % (job['prop'], job['seed'], job['shard'], idx))
+        else:
+            rng = random.Random('%s/%s/%s/%s/%s/%s' % (
+                job['prop'], job['seed'], job['mode'], job.get('cfgname', ''), job['shard'], idx))
         ctx.begin_case(idx)
         try:
             eng.run_case(ctx, rng, job)
